@@ -57,11 +57,13 @@ func boolsFlags(f Bools) Flags {
 //@ ensures wf: wfFlags(*fs)
 
 //@ func (Flags).Get
+//@ inline
 //@ theory bv
 //@ property C19 C20
 //@ ensures result == (fs.Values&uint64(f) != 0)
 
 //@ func (Flags).Has
+//@ inline
 //@ theory bv
 //@ property C19 C20
 //@ ensures result == (fs.Presence&uint64(f) != 0)
